@@ -1,4 +1,5 @@
 import HawkModel.Gen.Precedence
+import HawkModel.Gen.Keywords
 /-!
   Token-level model of the hawk deparser (lib/tree.c `print_expr`, as repaired) and of the expression
   parser (lib/parse.c `parse_expr` … `parse_primary`, the precedence ladder), both driven by the tables
@@ -611,15 +612,11 @@ def lexQuoted (q : Char) : List Char → Option (List Char × List Char)
       | some (b, r) => some (c :: b, r)
       | none => none
 
+/-- classify_ident: the generated keyword table `kwtab[]` of parse.c -/
 def kwKind (s : String) : TK :=
-  if s = "in" then .IN else if s = "getline" then .GETLINE else if s = "getbline" then .GETBLINE
-  else if s = "print" then .PRINT else if s = "printf" then .PRINTF
-  else if s = "if" then .IF else if s = "else" then .ELSE else if s = "while" then .WHILE else if s = "for" then .FOR
-  else if s = "do" then .DO else if s = "function" then .FUNCTION else if s = "return" then .RETURN
-  else if s = "delete" then .DELETE else if s = "exit" then .EXIT else if s = "next" then .NEXT
-  else if s = "break" then .BREAK else if s = "continue" then .CONTINUE else if s = "BEGIN" then .BEGIN
-  else if s = "END" then .END else if s = "nextfile" then .NEXTFILE else if s = "nextofile" then .NEXTOFILE
-  else .IDENT
+  match Hawk.Gen.Keywords.kwtab.lookup s with
+  | some k => k
+  | none => .IDENT
 
 def lexGo (fuel : Nat) (cs : List Char) (acc : List Tok) : Except Err (List Tok) :=
   match fuel with
@@ -664,7 +661,13 @@ def lexGo (fuel : Nat) (cs : List Char) (acc : List Tok) : Except Err (List Tok)
         | 'n' :: 'i' :: 'l' :: r1 =>
           if (match r1 with | x :: _ => isAlnum x | [] => false) then .error .lex
           else lexGo fuel' r1 ({ k := .XNIL, s := "@nil" } :: acc)
-        | _ => .error .lex
+        | _ =>
+          -- `@word`: a keyword of kwtab[] (@local, @global, @reset, @abort, ...)
+          let (w, r1) := spanC isAlnum r
+          let sp := String.ofList ('@' :: w)
+          match Hawk.Gen.Keywords.kwtab.lookup sp with
+          | some k => lexGo fuel' r1 ({ k := k, s := sp } :: acc)
+          | none => .error .lex
       else
         match symWalk symTable 0 cs with
         | some (s, k, r') => if s.length = 0 then .error .lex else lexGo fuel' r' ({ k := k, s := s } :: acc)
